@@ -296,6 +296,10 @@ def _discharge_once(ob, timeout_ms=20000, second_backend=True):
         ok = bool(ob.goal)
         if ob.expect == "refuted":
             ob.status = "ok" if not ok else "control_failed"
+        elif ob.kind == "applicability" and not ok:
+            # the code no longer has the shape the contract's model covers (e.g. a method body with several Python-level paths):
+            # nothing is known about the property from this family - undecided, never a violation
+            ob.status, ob.solver_output = "unknown", "the contract's model does not cover this code shape: " + (ob.note or "")
         else:
             ob.status = "discharged" if ok else "refuted"
         ob.backend = "ast"
